@@ -92,6 +92,19 @@ Section Model.
     dedup (concat (map (fun c => if excluded fixed N c k then [] else of_order k (keys c)) cs)
            ++ map (@removelast _) (prob_keys cs (S k))).
 
+  (* ---- pass 2 rewinds over all successors of one context: how many can there be? --------------------- *)
+  Definition is_follower (c g : ngram) : bool := match g with [] => false | _ => ngram_eqb (removelast g) c end.
+  Definition followers_in (u : list ngram) (c : ngram) : list ngram := filter (is_follower c) u.
+  Definition followers (cs : list comp) (c : ngram) : list ngram := followers_in (union_ngrams cs) c.
+  Definition union_unigrams (cs : list comp) : list ngram := of_order 1 (union_ngrams cs).
+  Definition contexts_of (cs : list comp) (k : nat) : list ngram := dedup (map (@removelast _) (prob_keys cs k)).
+  (* the longest run of order-k records the normaliser has to keep in its rewind window *)
+  Definition max_followers (cs : list comp) (k : nat) : nat :=
+    let u := union_ngrams cs in                                   (* computed once *)
+    fold_right (fun c m => Nat.max (length (followers_in u c)) m) 0 (dedup (map (@removelast _) (of_order k u))).
+  Definition comp_vocab_size (c : comp) : nat := length (dedup (of_order 1 (keys c))).
+  Definition max_comp_vocab (cs : list comp) : nat := fold_right (fun c m => Nat.max (comp_vocab_size c) m) 0 cs.
+
   (* ReunifyBackoff: "Streams were not the same size during merging" *)
   Definition reunify_ok (fixed : bool) (cs : list comp) : bool :=
     forallb (fun k => length (prob_keys cs k) =? length (backoff_keys fixed cs k)) (seq 1 (max_order cs - 1)).
@@ -101,3 +114,8 @@ End Model.
 Definition Zcomp := comp Z.
 Definition merged_Z (cs : list Zcomp) := merged Z 0%Z Z.add Z.mul cs.
 Definition reunify_ok_Z (fixed : bool) (cs : list Zcomp) := reunify_ok Z fixed cs.
+Definition max_followers_Z (cs : list Zcomp) : list nat :=
+  let u := union_ngrams Z cs in
+  map (fun k => fold_right (fun c m => Nat.max (length (followers_in u c)) m) 0 (dedup (map (@removelast _) (of_order k u))))
+      (seq 1 (max_order Z cs)).
+Definition vocab_sizes_Z (cs : list Zcomp) : nat * nat := (length (union_unigrams Z cs), max_comp_vocab Z cs).
